@@ -506,11 +506,11 @@ func (s *Snapshotter) compact() error {
 	// Flush the existing snapshot, ignoring errors since we will
 	// delete it momentarily.
 	_ = s.buffered.Flush()
-	s.buffered = nil
 
-	// Close the file handle to the old snapshot
+	// Close the file handle to the old snapshot. The (now closed) handles are kept until the
+	// new ones exist: if the swap below fails, later appends get an error from the closed file
+	// (and trigger the recovery compaction in tryAppend) instead of dereferencing nil handles.
 	s.fh.Close()
-	s.fh = nil
 
 	// Move the new file into place. os.Rename replaces an existing destination atomically
 	// (also on Windows, where Go uses MoveFileEx with MOVEFILE_REPLACE_EXISTING), so the old
